@@ -11,7 +11,7 @@ use serde_json::json;
 
 pub const ID: &str = "C09";
 
-pub const RULE: &str = "cases = (operator table, token string, table representation). Tables of 1..6 operators over the symbols + - * ! ^ ~ with four binding-power levels per table (mapped order-preservingly onto 0..3, onto values around 2^15 where a doubled power needs 17 bits, or onto the top of the u16 range) and fixities prefix / postfix / infix-left / infix-right, one operator in five written as the symbol doubled (`--`: a multi-token operator parser, which fails after consuming a token on `-a`); 70% 'plain' tables (at most one operator per symbol and fixity, never postfix and infix on one symbol, left- and right-associative infix never at one power), 30% unrestricted (duplicates, postfix+infix on one symbol, mixed associativity at one level: decided by declaration order); atoms a, b and parenthesised sub-expressions (recursive). Token strings: ALL strings over (atoms, used symbols, one foreign symbol, parentheses when used) up to length L for every table of the exhaustive tier, derived well-formed expressions with 0..2 edits and random strings up to length 40 in the random tier. Each table is built as a Vec of boxed operators, as a tuple of boxed operators and (for the 9 tables of the static catalogue) as a tuple of plain, unboxed operators; parse and check. Oracle: an independently written textbook binding-power evaluator over the table DESCRIPTION (prefix chain or atom; then repeatedly: the first postfix operator, in declaration order, that binds at least as tightly as the context; else the first infix operator that binds at least as tightly AND has a right operand, otherwise the operator stays unconsumed; equal powers resolved by associativity): compared on acceptance, the fully parenthesised tree and the consumed length (observed by following the expression with a rest-capturing parser). Oracle-free: flattening the tree yields exactly the consumed tokens in order; the three table representations and check mode agree; every fold callback's e.span() covers exactly the flattened leaves of the sub-expression it builds and its e.state() equals the fold of the tokens before its end (C07 / C18 for Pratt). NON-TRIVIAL = the expression contains two operators of equal power, or a unary operator next to a binary one on the same operand, or an infix operator whose right operand is missing; distinct = distinct (table, string).";
+pub const RULE: &str = "cases = (operator table, token string, table representation). Tables of 1..6 operators over the symbols + - * ! ^ ~ with four binding-power levels per table (mapped order-preservingly onto 0..3, onto values around 2^15 where a doubled power needs 17 bits, or onto the top of the u16 range) and fixities prefix / postfix / infix-left / infix-right, one operator in five written as the symbol doubled (`--`: a multi-token operator parser, which fails after consuming a token on `-a`); 70% 'plain' tables (at most one operator per symbol and fixity, never postfix and infix on one symbol, left- and right-associative infix never at one power), 30% unrestricted (duplicates, postfix+infix on one symbol, mixed associativity at one level: decided by declaration order); atoms a, b and parenthesised sub-expressions (recursive). Token strings: ALL strings over (atoms, used symbols, one foreign symbol, parentheses when used) up to length L for every table of the exhaustive tier, derived well-formed expressions with 0..2 edits and random strings up to length 40 in the random tier. Each table is built as a Vec of boxed operators, as a tuple of boxed operators and (for the 9 tables of the static catalogue) as a tuple of plain, unboxed operators; parse and check. Oracle: an independently written textbook binding-power evaluator over the table DESCRIPTION (prefix chain or atom; then repeatedly: the first postfix operator, in declaration order, that binds at least as tightly as the context; else the first infix operator that binds at least as tightly AND has a right operand, otherwise the operator stays unconsumed; equal powers resolved by associativity): compared on acceptance, the fully parenthesised tree and the consumed length (observed by following the expression with a rest-capturing parser). Oracle-free: flattening the tree yields exactly the consumed tokens in order; the three table representations and check mode agree; every fold callback's e.span() covers exactly the flattened leaves of the sub-expression it builds and its e.state() equals the fold of the tokens before its end (C07 / C18 for Pratt). Every statically typed table also runs as a clone of a clone with the original dropped. NON-TRIVIAL = the expression contains two operators of equal power, or a unary operator next to a binary one on the same operand, or an infix operator whose right operand is missing; distinct = distinct (table, string).";
 
 pub const ASSUMPTIONS: &[&str] = &[
     "the reference evaluator (this file, `reference`) is written from the textbook algorithm and the statement; powers: an operator of power p captures an operand only if the operand's operators bind at least as tightly",
